@@ -45,7 +45,7 @@ CHECKS = {
              "(spec/Trace_Api.tla): every call must be enabled and must RETURN (a panic, failed assertion, overflow or "
              "watchdog timeout has no transition), and each raw event stream must obey the event grammar. The inputs of the parser kernels (spec/MC_Parser.tla: components, quantities, modifiers, blocks, escapes, path-like names) run too: the pull parser and build_ast under the kernels' extension sets (judged by spec/Trace_Parser.tla) and the API programs under six extension subsets that switch single gates. Every program also runs on amounts at the edges of f64 / u32 in every unit of an extreme converter (ratios 1e300 and 1e-300, fractions everywhere with the widest limits, offsets), on CookDoc's generated documents and on small documents carrying a byte-order mark, zero-width / directional marks, NEL, LS, VT, FF or NUL.",
         design="6 (C03), 3.11", technique="TLA+ API typestate model + TLC-generated call programs replayed on exhaustive corpora + trace validation",
-        note="Trusted: TLC, catch_unwind sees every panic (debug assertions and overflow checks on), 10 s watchdog = hang. "
+        note="Trusted: TLC, catch_unwind sees every panic (debug assertions and overflow checks on), 60 s watchdog on the call sequences of one input = hang. "
              "Exhaustive only up to the stated string length."),
     "C04": dict(
         text="The lexer is specified as a token-at-a-time machine (spec/CookLexer.tla); TLC explores it exhaustively over "
